@@ -64,7 +64,11 @@ def rand_encoders(rng, lo=0, hi=4, textual=False):
     for _ in range(rng.randrange(lo, hi + 1)):
         e = rng.choice(ENCODERS)
         if e in ("append", "prepend"):
-            out.append((e, bytes(rng.choice(b"abcXYZ019-_=;") for _ in range(rng.randrange(0, 6)))))
+            arg = bytes(rng.choice(b"abcXYZ019-_=;") for _ in range(rng.randrange(0, 6)))
+            if rng.random() < 0.15:
+                # text outside ASCII (UTF-8): "donn\u00e9es=", "\u00fc"
+                arg = rng.choice(["donn\u00e9es=", "\u00fc", "cl\u00e9", "\u20ac1"]).encode("utf-8") + arg
+            out.append((e, arg))
         else:
             out.append((e, True))
     if textual:
@@ -78,7 +82,8 @@ def rand_encoders(rng, lo=0, hi=4, textual=False):
 def gen_profile(rng):
     """a random valid http-get / http-post / server profile as three step lists in transform order"""
     get_term = rng.choice([("header", b"Cookie"), ("parameter", b"sid"), ("print", True), ("header", b"X-Session"),
-                           ("header", b"X-CSRF-Token"), ("header", b"ETag"), ("header", b"x-trace"), ("parameter", b"SID_v2")])
+                           ("header", b"X-CSRF-Token"), ("header", b"ETag"), ("header", b"x-trace"), ("parameter", b"SID_v2"),
+                           ("parameter", "cl\u00e9".encode("utf-8"))])
     get = []
     if rng.random() < 0.6:
         get.append(("_header", rng.choice([b"Accept: */*", b"Accept-Language: en-US", b"Referer: http://code.example/"])))
@@ -87,7 +92,8 @@ def gen_profile(rng):
     if rng.random() < 0.3:
         get.append(("_hostheader", b"Host: cdn.example"))
     get += [("build", "metadata")] + rand_encoders(rng, textual=get_term[0] != "print") + [get_term]
-    id_term = rng.choice([("parameter", b"id"), ("header", b"X-Id"), ("header", b"CF-RAY"), ("header", b"x-req-id"), ("parameter", b"Req.ID")])
+    id_term = rng.choice([("parameter", b"id"), ("header", b"X-Id"), ("header", b"CF-RAY"), ("header", b"x-req-id"), ("parameter", b"Req.ID"),
+                          ("parameter", "n\u00b0".encode("utf-8"))])
     out_term = ("print", True)
     post = []
     if rng.random() < 0.5:
